@@ -268,6 +268,18 @@ def _free_guards(ctx, run):
         else:
             ok = False
             break
+    if not (ok and gotos):
+        # without a goto: the reset stores themselves are dominated by the two conditions (directly, or through
+        # `victim = cn` under them and a later `victim != NULL` test - atoms.dominating_atoms follows such a flag)
+        ok2 = True
+        for i in sts:
+            ats = atoms.atoms_at(f, i)
+            if not (any(a.cmp_const("==", "cache_network.ref_count", 0) or a.cmp_const("<=", "cache_network.ref_count", 0) for a in ats)
+                    and any(a.cmp_const("==", "cache_network.n_referenced_pages", 0)
+                            or a.cmp_const("<=", "cache_network.n_referenced_pages", 0) for a in ats)):
+                ok2 = False
+        if ok2:
+            ok, gotos = True, [None]
     key = "RF-DOM:recycle_network:eligibility"
     if ok and gotos:
         run.holds("RF-DOM", key, "a network is taken for recycling only under ref_count == 0 and n_referenced_pages == 0", ex.loc(f, sts[0]))
